@@ -251,7 +251,7 @@ _W6 = {
 }
 _W7 = {
     "C07": " Seventh-wave additions: read timeouts reported as *net.OpError / *fs.PathError / %w-annotated errors; register values at which representations change or that resemble protocol bytes; transaction ids 0 and 65535; the application formats (logs) what it received.",
-    "C08": " Seventh-wave additions: wrapped timeout errors; serial read timeouts of 0, 50 ns, 1 us; endless floods that fill every read to the brim; a call that comes back only during teardown counts as not returned; floods crafted to fit a junk byte count behind eight genuine bytes (known finding mbap_length_ignored).",
+    "C08": " Seventh-wave additions: wrapped timeout errors; serial read timeouts of 0, 50 ns, 1 us; endless floods that fill every read to the brim; a call that comes back only during teardown counts as not returned; floods crafted to fit a junk byte count behind eight genuine bytes (known finding mbap_length_ignored). Eighth-wave addition: after an oversize reply in an endless flood the application calls again on the same client.",
     "C11": " Seventh-wave additions: the application formats (logs) the response before looking coils up.",
     "C12": " Seventh-wave additions: extensions made of line-idle bytes (0xFF / 0x00).",
     "C13": " Seventh-wave additions: the application formats (logs) the response and the view between reads; special register values.",
